@@ -45,7 +45,8 @@ class Contract:
         self.allow_exc = kw.pop("allow_exc", None)
         self.pure = kw.pop("pure", False)  # no heap/ghost effects: generic native replay applies
         self.replay = kw.pop("replay", None)
-        self.crash = kw.pop("crash", None)  # crash condition: must hold after every state-mutating call in the body  # custom native replay driver
+        self.crash = kw.pop("crash", None)
+        self.native_check = kw.pop("native_check", None)  # CPython twin of the postcondition: f(args: dict, result) -> bool  # crash condition: must hold after every state-mutating call in the body  # custom native replay driver
         if kw:
             raise TypeError(f"unknown contract fields {list(kw)}")
 
@@ -71,3 +72,14 @@ REG = Registry()
 
 def contract(qualname, **kw):
     return REG.add(qualname, **kw)
+
+
+HARNESSES: list = []
+
+
+def harness(module, name, src, **kw):
+    """lemma over real functions: `src` is a function definition evaluated in `module`'s namespace"""
+    q = f"{module}:<harness>{name}"
+    HARNESSES.append((module, name, src))
+    kw.setdefault("modular", False)
+    return REG.add(q, **kw)
